@@ -275,3 +275,36 @@ def _barrel_spec(o, p, ins):
 
 case('ops.barrel', _barrel_spec, W=lambda p: 3 * p['w'] + (1 << p['ws']) + 4,
      lens=lambda p: dict(bs=p['w']))(_barrel_build)
+
+
+# ----------------------------------------------------------------------------- negative ints as operands
+def negative_int_operands(wa=3, k=-3):
+    """Executable contract: a negative Python int used directly as an operand is treated exactly like
+    `Const(k)` (no bitwidth): refused with PyrtlError iff Const(k) is refused; if accepted, the result is
+    the exact result for the constant's value."""
+    import pyrtl
+    import operator
+    pyrtl.reset_working_block()
+    try:
+        pyrtl.Const(k)
+        const_ok = True
+    except pyrtl.PyrtlError:
+        const_ok = False
+    bad = []
+    forms = [('a+k', lambda a: a + k), ('k+a', lambda a: k + a), ('a-k', lambda a: a - k), ('k-a', lambda a: k - a),
+             ('a*k', lambda a: a * k), ('a&k', lambda a: a & k), ('a|k', lambda a: a | k), ('a^k', lambda a: a ^ k),
+             ('a<k', lambda a: a < k), ('a>k', lambda a: a > k), ('a==k', lambda a: a == k),
+             ('concat(a,k)', lambda a: pyrtl.concat(a, k)), ('select(a0,k,a)', lambda a: pyrtl.select(a[0], k, a)),
+             ('as_wires(k)', lambda a: pyrtl.as_wires(k))]
+    for nm, f in forms:
+        pyrtl.reset_working_block()
+        a = pyrtl.Input(wa, 'a')
+        try:
+            f(a)
+            ok = True
+        except pyrtl.PyrtlError:
+            ok = False
+        if ok != const_ok:
+            bad.append(nm)
+    return dict(failed=bool(bad), observed=dict(accepted_differently_from_Const=bad, Const_accepted=const_ok),
+                expected='every form accepted iff Const(%d) is' % k)
